@@ -290,6 +290,17 @@ pub fn pad_sum(p: &str) -> u64 {
     p.bytes().enumerate().fold(0u64, |h, (i, b)| h.wrapping_mul(31).wrapping_add(b as u64 ^ (i as u64 & 0xff)))
 }
 
+thread_local! {
+    /// Per-run knob (set from the tape by the server-world checks): which liberties the scripted
+    /// clients take when they *spell* a call. 0 = serde_json's compact output, members in
+    /// alphabetical order, flags only when true.
+    static CALL_SPELLING: std::cell::Cell<u32> = const { std::cell::Cell::new(0) };
+}
+
+pub fn set_call_spelling(mask: u32) {
+    CALL_SPELLING.with(|c| c.set(mask));
+}
+
 pub fn call_frame(cid: u32, seq: u32, c: &CallSpec) -> Vec<u8> {
     let mut v = match c {
         CallSpec::Len { pad, .. } => json!({"method": "org.example.Len", "parameters": {"cid": cid, "seq": seq, "pad": padstr(*pad, cid * 7 + seq)}}),
@@ -302,7 +313,48 @@ pub fn call_frame(cid: u32, seq: u32, c: &CallSpec) -> Vec<u8> {
     if c.oneway() {
         v["oneway"] = json!(true);
     }
-    serde_json::to_vec(&v).unwrap()
+    let mask = CALL_SPELLING.with(|c| c.get());
+    let style = mask & (crate::tape::mix(cid as u64 + 1, seq as u64 + 77) as u32);
+    if style == 0 {
+        return serde_json::to_vec(&v).unwrap();
+    }
+    spell_call(&v, style, crate::tape::mix(seq as u64 + 5, cid as u64))
+}
+
+/// A call spelled the way another Varlink implementation might legally write it. Bits of `style`:
+/// 1 = another member order (the hash picks the permutation); 2 = blanks and line breaks between
+/// tokens (the parameters pretty-printed); 4 = flags that are not set are written out as `false`;
+/// 8 = an extra member the receiver does not know, with nested content; 16 = blanks around the
+/// whole document. Member names are never escaped: zlink's `Call` decoder documents itself as
+/// reading keys zero-copy, which no JSON decoder can do for an escaped name.
+fn spell_call(v: &Value, style: u32, h: u64) -> Vec<u8> {
+    let sp = if style & 2 != 0 { " " } else { "" };
+    let params = if style & 2 != 0 { serde_json::to_string_pretty(&v["parameters"]).unwrap() } else { serde_json::to_string(&v["parameters"]).unwrap() };
+    let mut members: Vec<String> = vec![format!("\"method\":{sp}{}", serde_json::to_string(&v["method"]).unwrap()), format!("\"parameters\":{sp}{params}")];
+    for flag in ["oneway", "more", "upgrade"] {
+        match v.get(flag) {
+            Some(b) => members.push(format!("\"{flag}\":{sp}{b}")),
+            None if style & 4 != 0 => members.push(format!("\"{flag}\":{sp}false")),
+            None => {}
+        }
+    }
+    if style & 8 != 0 {
+        members.push(format!("\"x-trace\":{sp}{{\"hops\":[1,{{\"via\":null}},\"a\\u0000b\"],\"method\":\"org.example.Nope\",\"oneway\":true}}"));
+    }
+    if style & 1 != 0 {
+        // a permutation chosen by the hash (Fisher-Yates with successive digits of h)
+        let mut h = h;
+        for i in (1..members.len()).rev() {
+            let j = (h % (i as u64 + 1)) as usize;
+            h /= i as u64 + 1;
+            members.swap(i, j);
+        }
+    }
+    let sep = if style & 2 != 0 { ",\n  " } else { "," };
+    let (open, close) = if style & 2 != 0 { ("{ ", "\n}") } else { ("{", "}") };
+    let body = format!("{open}{}{close}", members.join(sep));
+    let out = if style & 16 != 0 { format!(" \t{body}\r\n ") } else { body };
+    out.into_bytes()
 }
 
 /// What the sequential reference execution of the (pure) service sends to this client.
